@@ -22,7 +22,10 @@ MANIFEST = {
             "the chain is positively homogeneous of degree 1, each axis depends on its own gradient only, ok holds "
             "exactly when every squared norm is below 1, the two percent factors cancel. alpha, the three branch "
             "expressions, padding arithmetic, raster-centre offset and the strictness of ok are re-read from the source "
-            "on every run. Random sequences (trapezoid/extended/arbitrary gradients, channel subsets, delays, chained "
+            "on every run. End-to-end theorem: every returned component equals the SAFE recursive model on the "
+            "centre-sampled gradient within the truncation bound (2*eps*M*sum|a| under the tap-count condition that the "
+            "harness evaluates on the implementation's own tap count); sign case and time-shift invariance proved. "
+            "Random sequences (trapezoid/extended/arbitrary gradients, channel subsets, delays, chained "
             "non-zero block edges, rasters 10/20 us, several gamma, random hardware) run through calculate_pns and are "
             "compared with an independent exact-Fraction SAFE evaluation (recursive filter, per-event sampling at raster "
             "centres) and with the extracted Coq model.",
@@ -43,7 +46,9 @@ RULE = ('sequences of 1-4 blocks with, per channel, none / trapezoid / extended 
         '20 us, gamma from 5 nuclei (one negative), hardware with 9 random time constants, weights summing to 1 '
         '(sometimes off by <= 5e-4), random stim_limit/stim_thresh/g_scale; all numbers short decimals. Oracle: exact '
         'Fractions, recursive filter, gradient evaluated event by event at raster centres; components, norm, count and ok '
-        'compared. distinct = distinct cases; non-trivial = at least one axis with peak stimulation > 1e-3')
+        'compared. Fixed extra streams: 8 multi-axis near-threshold cases on non-proton systems (every component < 1, norm in '
+        '[0.9, 1.2]), 8 sequences written to a .seq file with a 20/5 us gradient raster and read into a default-raster '
+        'Sequence, scaled (|c|) and time-shifted re-runs of ~30% of the cases. distinct = distinct cases; non-trivial = at least one axis with peak stimulation > 1e-3')
 TRUSTED = ['binary64 arithmetic of NumPy/SciPy (PPoly evaluation, np.convolve, np.diff) is outside the model: sampled',
            'tap count n = min(round(log(eps)/log(1-alpha)), N) is computed by the harness with the same float formula '
            'and passed to the model; the oracle tolerance contains the exact truncation bound M(1-alpha)^n',
